@@ -3,6 +3,7 @@
 package main
 
 import (
+	"encoding/binary"
 	"bytes"
 	"encoding/json"
 	"fmt"
@@ -36,6 +37,11 @@ type FilePlan struct {
 	Gen2Announce []Delivery    `json:"gen2_announce,omitempty"`
 	Gen2Probes   []Delivery    `json:"gen2_probes,omitempty"`
 	ExtElements  bool          `json:"ext_elements"`
+	// a large deployment: Bulk further exporters each announce one template of
+	// BulkFields specifiers before the cache is saved (built at run time, the
+	// plan stays small); such a run saves and loads the file a few times only
+	Bulk       int `json:"bulk,omitempty"`
+	BulkFields int `json:"bulk_fields,omitempty"`
 	Prefixes     []int         `json:"prefixes"` // explicit prefix lengths (negative: from the end); empty with AllPrefixes
 	AllPrefixes  bool          `json:"all_prefixes"`
 	Corrupt      []FileCorrupt `json:"corrupt"`
@@ -270,6 +276,19 @@ func runCacheFile(p *FilePlan, ch *simrt.Choices) *fileRun {
 			d := &p.Announce[i]
 			orig.decode(srcAddr(&p.Exporters[d.Exporter]).IP, append([]byte(nil), d.payload...))
 		}
+		if p.Bulk > 0 {
+			exps := append([]ExporterPlan(nil), p.Exporters...)
+			for i := 0; i < p.Bulk; i++ {
+				ip := net.IP{10, 200, byte(i >> 8), byte(i)}
+				orig.decode(ip, bulkTemplateMsg(p.Proto, 300, p.BulkFields))
+				if i == 0 || i == p.Bulk-1 {
+					exps = append(exps, ExporterPlan{Addr: []byte(ip), Port: 6000 + i, Proto: p.Proto})
+					probes = append(probes, Delivery{Proto: p.Proto, Exporter: len(exps) - 1, payload: bulkDataMsg(p.Proto, 300, p.BulkFields)})
+				}
+			}
+			p.Exporters = exps
+			res.Kinds["large-deployment"]++
+		}
 		// reference decodes with the original cache
 		ref := make([][]byte, len(probes))
 		for i := range probes {
@@ -399,7 +418,7 @@ func runCacheFile(p *FilePlan, ch *simrt.Choices) *fileRun {
 		}
 		// saving over an existing, longer cache file (the previous run knew
 		// more templates) must leave exactly the new cache
-		{
+		if p.Bulk == 0 {
 			big := &fileAPI{proto: p.Proto}
 			big.load("/none")
 			for i := range p.Announce {
@@ -427,7 +446,7 @@ func runCacheFile(p *FilePlan, ch *simrt.Choices) *fileRun {
 		// the disk fills up while the cache is saved: the save may fail (and say
 		// so); if it reports success, the file must load back completely
 		for _, k := range []int{0, 1, len(valid) / 3, len(valid) - 1} {
-			if k < 0 {
+			if k < 0 || p.Bulk > 0 {
 				continue
 			}
 			fp := "/tmp/full.file"
@@ -460,6 +479,9 @@ func runCacheFile(p *FilePlan, ch *simrt.Choices) *fileRun {
 				}
 			}
 		}
+		if p.Bulk > 0 {
+			ks = []int{len(valid) / 2, len(valid) - 1}
+		}
 		for _, k := range ks {
 			variant("prefix", valid[:k], true, nil, false)
 			if len(res.Findings) > 4 {
@@ -468,6 +490,9 @@ func runCacheFile(p *FilePlan, ch *simrt.Choices) *fileRun {
 		}
 		r := rand.New(rand.NewSource(p.Seed))
 		for _, cr := range p.Corrupt {
+			if p.Bulk > 0 {
+				break
+			}
 			b := append([]byte(nil), valid...)
 			off := 0
 			if len(b) > 0 {
@@ -589,7 +614,15 @@ func genFilePlan(seed int64, tier string) *FilePlan {
 			}
 		}
 	}
-	if tier == "thorough" {
+	if r.Intn(50) == 0 {
+		// a large deployment: the file grows to tens of megabytes
+		p.BulkFields = 4000 + r.Intn(12000)
+		p.Bulk = (8 + r.Intn(110)) * 16000 / p.BulkFields
+		if p.Proto == pNF9 {
+			p.Bulk = p.Bulk * 3 / 2
+		}
+	}
+	if tier == "thorough" && p.Bulk == 0 {
 		p.AllPrefixes = true
 	} else {
 		p.Prefixes = []int{0, 1, 2, 3, 8, 9, 10, 11, -1, -2, -3, -12, -13, -14}
@@ -615,6 +648,47 @@ func genFilePlan(seed int64, tier string) *FilePlan {
 		p.Corrupt = append(p.Corrupt, FileCorrupt{Kind: k, Off: r.Intn(1 << 20), Len: r.Intn(4096), Val: val})
 	}
 	return p
+}
+
+// bulkTemplateMsg is one message announcing template id with n four-octet
+// fields (element ids 1..24 in turn).
+func bulkTemplateMsg(proto string, id uint16, n int) []byte {
+	rec := binary.BigEndian.AppendUint16(nil, id)
+	rec = binary.BigEndian.AppendUint16(rec, uint16(n))
+	for i := 0; i < n; i++ {
+		rec = binary.BigEndian.AppendUint16(rec, uint16(1+i%24))
+		rec = binary.BigEndian.AppendUint16(rec, 4)
+	}
+	if proto == pIPFIX {
+		return ipfixMsg(1, ipfixSet(2, rec))
+	}
+	return nf9Msg(1, ipfixSet(0, rec))
+}
+
+// bulkDataMsg is one record for that template.
+func bulkDataMsg(proto string, id uint16, n int) []byte {
+	rec := make([]byte, 4*n)
+	for i := range rec {
+		rec[i] = byte(i * 7)
+	}
+	if proto == pIPFIX {
+		return ipfixMsg(2, ipfixSet(id, rec))
+	}
+	return nf9Msg(2, ipfixSet(id, rec))
+}
+
+func nf9Msg(seq uint32, sets ...[]byte) []byte {
+	b := make([]byte, 20)
+	binary.BigEndian.PutUint16(b[0:], 9)
+	binary.BigEndian.PutUint16(b[2:], 1)
+	binary.BigEndian.PutUint32(b[4:], 1000)
+	binary.BigEndian.PutUint32(b[8:], 1)
+	binary.BigEndian.PutUint32(b[12:], seq)
+	binary.BigEndian.PutUint32(b[16:], 1)
+	for _, s := range sets {
+		b = append(b, s...)
+	}
+	return b
 }
 
 func genFileFor(prop, tier string, seed int64) []byte {
@@ -661,6 +735,28 @@ func shrinkFile(planJSON []byte) [][]byte {
 	emit := func(q FilePlan) {
 		b, _ := json.Marshal(&q)
 		out = append(out, b)
+	}
+	if p.Bulk > 0 {
+		// executions of a large deployment are expensive: a handful of candidates
+		q := p
+		q.Bulk, q.BulkFields = 0, 0
+		emit(q)
+		if len(p.Corrupt) > 0 || len(p.Prefixes) > 0 || len(p.Gen2Announce) > 0 {
+			q = p
+			q.Corrupt, q.Prefixes, q.AllPrefixes, q.Gen2Announce, q.Gen2Probes = nil, nil, false, nil, nil
+			emit(q)
+		}
+		if p.Bulk > 1 {
+			q = p
+			q.Bulk = p.Bulk / 2
+			emit(q)
+			q = p
+			q.Bulk = p.Bulk * 9 / 10
+			if q.Bulk < p.Bulk && q.Bulk > p.Bulk/2 {
+				emit(q)
+			}
+		}
+		return out
 	}
 	// fewer corruptions / prefixes
 	for chunk := len(p.Corrupt) / 2; chunk >= 1; chunk /= 2 {
